@@ -637,7 +637,7 @@ func (x *Run) execUnOp(fr *Frame, st *State, ins *ssa.UnOp, outs *[]Outcome) {
 
 // checkDeref: nil-dereference obligation for nullable values.
 func (x *Run) checkDeref(fr *Frame, st *State, v Val, site ssa.Instruction, outs *[]Outcome) {
-	if v.Addr != nil && (v.Addr.Kind == ACell || v.Addr.Kind == AArrCell || v.Addr.Kind == AGlobal || v.Addr.Fresh) {
+	if v.Addr != nil && (v.Addr.Kind == ACell || v.Addr.Kind == AArrCell || v.Addr.Kind == AGlobal || v.Addr.Kind == AElem || v.Addr.Fresh) {
 		return
 	}
 	if v.MaybeNil {
